@@ -289,6 +289,14 @@ def slr_polys(rng):
         b = nprng.normal(size=n) + 1j * nprng.normal(size=n)
         b = b / np.max(np.abs(np.fft.fft(b, 16 * n))) * rng.uniform(0.05, 0.97)
         out.append(dict(kind="random-complex", n=n, b=c2l(b)))
+        if n >= 4 and len(out) % 3 == 0:
+            # the same coefficient MAGNITUDES with other phases, designed right after each other in one process: the minimum-phase
+            # alpha depends on |B(w)| on the circle, not on the coefficient magnitudes
+            k = np.arange(n)
+            for nm, bv in (("conj", np.conj(b)), ("alternating-sign", b * (-1.0) ** k), ("quarter-turns", b * (1j) ** k)):
+                # (multiplication by +-1, +-i and conjugation are exact: the magnitudes are bit-identical, and the frequency
+                # response is only reflected / shifted by a multiple of pi/2, so max|B| is unchanged)
+                out.append(dict(kind="random-complex:" + nm, n=n, b=c2l(bv)))
     return out
 
 
